@@ -4,7 +4,7 @@ import time
 
 from . import common
 
-RULE = ("real ThreadCommon with recording init/target/final callbacks driven by random start/stop sequences (length <= 8) "
+RULE = ("real ThreadCommon with recording init/target/final callbacks driven by random start/stop sequences (length <= 8; in a third of them some stops are requested through stop_set() first, so that thread_stop() finds a worker that already finished) "
         "with random gaps, targets lasting 0 / 1 ms / 30 ms, optional slow init; GIL switch interval lowered to 10 us so the "
         "interpreter pre-empts between lines; the event log is judged by the monitor the Coq model is proved against (init once "
         "before the first target, final once after the last, no target after stop returned until the next start, one "
@@ -58,6 +58,13 @@ def scenario(calls, tdelay, idelay, with_init, with_final, gaps, stop_budget=5.0
             started = True
         else:
             rec.ev("stop_call")
+            if call == "stop2":
+                # the stop is requested through the public stop_set() first and the worker is given the time to
+                # finish on its own; thread_stop() then finds a worker that is no longer alive
+                tc.stop_set()
+                t0 = time.monotonic()
+                while tc.thread_is_alive() and time.monotonic() - t0 < stop_budget:
+                    time.sleep(0.0005)
             box = {}
             t = threading.Thread(target=lambda: (tc.thread_stop(), box.setdefault("ok", 1)), daemon=True)
             t.start()
@@ -147,7 +154,8 @@ def main(run):
         n = 45 if not run.thorough else 400
         for i in range(n):
             k = rng.randrange(1, 9)
-            calls = [rng.choice(["start", "stop", "start"]) for _ in range(k)]
+            calls = [rng.choice(["start", "stop", "start", "stop2"] if i % 3 == 0 else ["start", "stop", "start"])
+                     for _ in range(k)]
             if "start" not in calls:
                 calls[0] = "start"
             td = rng.choice([0, 0, 0.001, 0.03])
